@@ -54,8 +54,32 @@ def compiled_corpus(tier):
     dgs = [dcorp.DG("g%d" % i, t, {"emit_rule_reference": True}) for i, t in enumerate(texts + cand)]
     ok = dcorp.prepare(dgs)
     fixed = [g for g in ok if int(g.name[1:]) < len(texts)]
-    rnd = [g for g in ok if int(g.name[1:]) >= len(texts)][:want]
+    # random grammars: only those the verified certificate checker wf_cert accepts (Model/Wf.v, with the inferred certificate):
+    # pest's validator lets through repetitions over stack built-ins that can match the empty string for ever (POP_ALL*,
+    # PEEK[..]* on an empty stack); they are outside the class "well-founded" of C11 and hang pest itself
+    rnd = wf_only([g for g in ok if int(g.name[1:]) >= len(texts)])[:want]
     return fixed + rnd
+
+
+def wf_only(gs):
+    if not gs:
+        return gs
+    okm, exe = build.build_extraction("Sem")
+    if not okm:
+        raise RuntimeError(exe)
+    lines = []
+    for g in gs:
+        had = g.env.preds
+        if not had:         # the Unicode predicate tables are sampled later; the analysis does not look at them
+            g.env.preds = {n: [] for n in getattr(g.env, "pred_names", [])}
+        lines.append(g.env.env_sexp(MODEL_FLAGS))
+        g.env.preds = had
+        lines.append("(wf 0)")
+    p = subprocess.run([exe], input="\n".join(lines) + "\n", capture_output=True, text=True)
+    verdicts = [ln.split("|")[1] for ln in p.stdout.split("\n") if ln.startswith("WF|")]
+    if len(verdicts) != len(gs):
+        raise RuntimeError("wf filter: %d verdicts for %d grammars: %s" % (len(verdicts), len(gs), p.stderr[-300:]))
+    return [g for g, v in zip(gs, verdicts) if v == "1"]
 
 
 _run_cache = {}
@@ -243,6 +267,13 @@ def v1(ctx, n_random, which=("opt",)):
                 bad += 1
                 ctx.violation("the generator emits something the extractor cannot classify (%s)" % (r.anomalies()[:2],),
                               {"grammar": texts[int(gid[1:])], "which": w}, found_input=False)
+                continue
+            undefined = sorted(r.used_generics() - set(r.generics()))
+            if undefined:
+                bad += 1
+                if bad <= 4:
+                    ctx.violation("the emitted rule types use %s, which the emitted generics module does not define (the derive expansion does not compile)" % undefined,
+                                  {"grammar": texts[int(gid[1:])], "which": w, "options": opts, "undefined": undefined})
                 continue
             gd = generics_defs_ok(r)
             if gd:
